@@ -8,12 +8,9 @@ import (
 	"os"
 	"path/filepath"
 	"strconv"
-	"strings"
 	"time"
 
 	"jrpcvet/internal/chk"
-	"jrpcvet/internal/facts"
-	"jrpcvet/internal/ir"
 	"jrpcvet/internal/load"
 	"jrpcvet/internal/props"
 )
@@ -47,6 +44,7 @@ func main() {
 	if *explain != "" {
 		*verbose = true
 	}
+	props.VerifDir = *verif
 	ids := []string{*prop}
 	if *prop == "all" {
 		ids = props.IDs()
@@ -132,31 +130,15 @@ func runOne(def *props.Def, tier, repo string, seed int, evidencePath string, kn
 			}
 		}
 	}
-	if tier == "thorough" && def.Thorough != nil {
-		def.Thorough(res, repo)
+	if tier == "thorough" {
+		props.SelfTest(def, res, repo)
+		if def.Thorough != nil {
+			def.Thorough(res, repo)
+		}
 	}
 	return chk.Report(res, known, evidencePath, verbose)
 }
 
 func analyse(def *props.Def, cfg load.Config, tier string) ([]chk.Obligation, int) {
-	lp, err := load.Load(cfg)
-	if err != nil {
-		return []chk.Obligation{{Rule: "LOAD", Func: "-", Construct: cfg.Name(), Site: "-", Status: chk.Undecided,
-			Detail: "cannot load/type-check the repository: " + strings.ReplaceAll(err.Error(), "\n", " ")}}, 0
-	}
-	p := ir.New(lp)
-	fa := facts.Analyze(p)
-	c := &chk.Ctx{P: p, F: fa, M: chk.Resolve(p)}
-	for _, pr := range c.M.Problems {
-		c.Undecided("ANCHOR", nil, pr, 0, "anchor resolution failed: %s", pr)
-	}
-	if !fa.Fixed {
-		c.Undecided("ENGINE", nil, "facts fixpoint", 0, "lockset analysis did not reach a fixpoint")
-	}
-	for _, b := range fa.CheckSingleRoot() {
-		c.Undecided("ENGINE", nil, b, 0, "path-keyed facts are ambiguous: %s", b)
-	}
-	def.Run(c, tier)
-	c.Finish()
-	return c.Obs, len(lp.Funcs)
+	return props.Analyse(def, cfg, tier)
 }
